@@ -10,5 +10,10 @@ chk('C14', 'model_checking',
 import glob as _glob
 for _f in sorted(_glob.glob(os.path.join(os.path.dirname(os.path.abspath(__file__)) if '__file__' in dir() else '/verif', 'manifest.d', 'C*.py'))):
     exec(open(_f).read())
+# only checks reviewed by the coordinator are claimed
+READY = ['C01', 'C14']
+for _k in list(CHECKS):
+    if _k not in READY:
+        del CHECKS[_k]
 _claimed = set(CHECKS)
 NOT_APPLICABLE = [{'property_id': p, 'reason': 'check not built yet in this revision (work in progress; see DESIGN.md section 9)'} for p in ALL if p not in _claimed]
